@@ -127,6 +127,21 @@ theorem force_dlc_smallest (f : Frame) :
     have := maxBit_le f.sigs (8 * n) hfit
     simp only [Frame.forceDlc]; omega
 
+/-- Recalculating a matrix gives every frame its own result: the length of a frame does not depend on
+the frames standing before or after it in the matrix. -/
+theorem recalc_frame_by_frame (strategy : String) (pre post : List Frame) (f : Frame) :
+    recalcDlc strategy (pre ++ f :: post) =
+      recalcDlc strategy pre ++ (recalcDlc strategy [f]) ++ recalcDlc strategy post := by
+  simp [recalcDlc]
+
+theorem recalc_force (pre post : List Frame) (f : Frame) :
+    (recalcDlc "force" (pre ++ f :: post))[pre.length]? = some f.forceDlc := by
+  simp [recalcDlc]
+
+theorem recalc_max (pre post : List Frame) (f : Frame) :
+    (recalcDlc "max" (pre ++ f :: post))[pre.length]? = some f.calcDlc := by
+  simp [recalcDlc]
+
 def permitted : List Nat := [0, 1, 2, 3, 4, 5, 6, 7, 8, 12, 16, 20, 24, 32, 48, 64]
 
 /-- `fit_dlc`: the smallest permitted CAN / CAN FD length not below the current one. -/
